@@ -93,6 +93,25 @@ func mkCrit(c *core.Ctx, kind string, recs []R, dir string) crit {
 	case "-i":
 		t := []int{10, 11, 12, 15, 20, 22}[c.Rng.Intn(6)]
 		return crit{kind, []string{"-i", fmt.Sprint(t)}, func(r R) bool { return !(r.Taxid > 0 && inClade(r.Taxid, t)) }}
+	case "--approx-pattern":
+		// a window of one of the records, with up to three substitutions, on either strand
+		src := recs[c.Rng.Intn(len(recs))].Seq
+		l := 6 + c.Rng.Intn(10)
+		if l > len(src) {
+			l = len(src)
+		}
+		at := c.Rng.Intn(len(src) - l + 1)
+		pat := []byte(src[at : at+l])
+		for i := c.Rng.Intn(4); i > 0; i-- {
+			pat[c.Rng.Intn(l)] = "acgt"[c.Rng.Intn(4)]
+		}
+		if c.Rng.Intn(2) == 0 {
+			pat = []byte(revComp(string(pat)))
+		}
+		ps, po := string(pat), curPat
+		return crit{kind, []string{"--approx-pattern", ps}, func(r R) bool {
+			return hammingFind(r.Seq, ps, po.err) || (!po.onlyForward && hammingFind(r.Seq, revComp(ps), po.err))
+		}}
 	case "--require-rank":
 		rk := []string{"genus", "family", "species", "kingdom"}[c.Rng.Intn(4)]
 		return crit{kind, []string{"--require-rank", rk}, func(r R) bool { return r.Taxid > 0 && hasRank(r.Taxid, rk) }}
@@ -100,7 +119,39 @@ func mkCrit(c *core.Ctx, kind string, recs []R, dir string) crit {
 	panic("unknown criterion " + kind)
 }
 
-var grepKinds = []string{"-l", "-L", "-c", "-C", "-I", "-D", "-s", "-a", "-A", "--id-list", "-p", "-r", "-i", "--require-rank"}
+// patOpts: --pattern-error and --only-forward apply to every --approx-pattern of the command.
+type patOpts struct {
+	err         int
+	onlyForward bool
+}
+
+var curPat patOpts
+
+func revComp(s string) string {
+	out := make([]byte, len(s))
+	for i := range s {
+		out[len(s)-1-i] = map[byte]byte{'a': 't', 'c': 'g', 'g': 'c', 't': 'a'}[s[i]]
+	}
+	return string(out)
+}
+
+// hammingFind: does pat occur in seq (entirely inside it) with at most e substitutions?
+func hammingFind(seq, pat string, e int) bool {
+	for s := 0; s+len(pat) <= len(seq); s++ {
+		mm := 0
+		for j := 0; j < len(pat) && mm <= e; j++ {
+			if seq[s+j] != pat[j] {
+				mm++
+			}
+		}
+		if mm <= e {
+			return true
+		}
+	}
+	return false
+}
+
+var grepKinds = []string{"--approx-pattern", "-l", "-L", "-c", "-C", "-I", "-D", "-s", "-a", "-A", "--id-list", "-p", "-r", "-i", "--require-rank"}
 var taxKinds = map[string]bool{"-r": true, "-i": true, "--require-rank": true}
 
 // chooseKinds: singles, then all pairs, then random larger subsets (with repeats of repeatable options).
@@ -129,7 +180,7 @@ func chooseKinds(c *core.Ctx) []string {
 	return out
 }
 
-var repeatable = map[string]bool{"-a": true, "-A": true, "-p": true, "-r": true, "-i": true, "--require-rank": true, "-I": true, "-D": true, "-s": true}
+var repeatable = map[string]bool{"--approx-pattern": true, "-a": true, "-A": true, "-p": true, "-r": true, "-i": true, "--require-rank": true, "-I": true, "-D": true, "-s": true}
 
 func runGrep(c *core.Ctx) {
 	kinds := chooseKinds(c)
@@ -159,6 +210,15 @@ func runGrep(c *core.Ctx) {
 	var crits []crit
 	var args []string
 	aKeys := map[string]bool{}
+	curPat = patOpts{err: c.Rng.Intn(3), onlyForward: c.Rng.Intn(3) == 0}
+	if seen["--approx-pattern"] {
+		if curPat.err > 0 || c.Rng.Intn(2) == 0 {
+			args = append(args, "--pattern-error", fmt.Sprint(curPat.err))
+		}
+		if curPat.onlyForward {
+			args = append(args, "--only-forward")
+		}
+	}
 	for _, k := range ks {
 		cr := mkCrit(c, k, recs, dir)
 		if k == "-a" { // -a is a map option: one pattern per key
@@ -327,6 +387,128 @@ func runGrep(c *core.Ctx) {
 			return
 		}
 		cmp("discarded", gd, wantDisc)
+	}
+}
+
+// ---------------------------------------------------------------- many batches
+
+// runGrepManyBatches: the same oracle on inputs that reach the filter as hundreds of batches (read
+// buffer forced to a few hundred bytes) with several filter workers: the selection must not depend
+// on the way the stream is cut nor on the worker that handles a batch.
+func runGrepManyBatches(c *core.Ctx) {
+	fastq := c.Idx%3 == 0
+	recs := mkRecords(c.Rng, c.Pick(1200, 3000)+c.Rng.Intn(600), fastq, false)
+	for i := range recs {
+		recs[i].ID = fmt.Sprintf("s%05d", i)
+	}
+	dir := filepath.Join(c.Dir, fmt.Sprintf("grepmb-%d", c.Idx))
+	os.MkdirAll(dir, 0o755)
+	defer os.RemoveAll(dir)
+	in := filepath.Join(dir, "in.fa")
+	os.WriteFile(in, render(recs, fastq), 0o644)
+	for rep := 0; rep < c.Pick(3, 6); rep++ {
+		kind := []string{"-l", "-L", "-c", "-s", "-p", "-a", "--approx-pattern"}[c.Rng.Intn(7)]
+		curPat = patOpts{err: 1}
+		cr := mkCrit(c, kind, recs, dir)
+		args := append([]string{}, cr.args...)
+		if kind == "--approx-pattern" {
+			args = append(args, "--pattern-error", "1")
+		}
+		invert := c.Rng.Intn(4) == 0
+		if invert {
+			args = append(args, "-v")
+		}
+		saveDiscarded := c.Rng.Intn(2) == 0
+		disc := filepath.Join(dir, "discarded.fa")
+		os.Remove(disc)
+		if saveDiscarded {
+			args = append(args, "--save-discarded", disc)
+		}
+		var want, wantDisc []string
+		for _, r := range recs {
+			if cr.pred(r) != invert {
+				want = append(want, r.ID)
+			} else {
+				wantDisc = append(wantDisc, r.ID)
+			}
+		}
+		cpu := []int{2, 4, 8, 16, 32}[c.Rng.Intn(5)]
+		chunk := 150 + c.Rng.Intn(400)
+		full := append([]string{"--no-progressbar", "--max-cpu", fmt.Sprint(cpu)}, args...)
+		full = append(full, in)
+		res := cmdx.Run(filepath.Join(c.BinDir, "obigrep"), full, cmdx.Opt{Env: []string{
+			fmt.Sprintf("OBIVERIF_CHUNK=%d", chunk), fmt.Sprintf("OBIVERIF_YIELD=%d:200:50", c.Rng.Intn(1e6))}})
+		c.Count("evaluations", 1)
+		c.Count("records_compared", len(recs))
+		det := map[string]any{"args": args, "records": len(recs), "max_cpu": cpu, "forced_read_buffer": chunk, "exit": res.Exit, "stderr": cmdx.Diag(res.Stderr, 2000)}
+		if res.TimedOut {
+			if res.Deadlock {
+				c.Violate("many-batches:deadlock", "obigrep never terminates", det)
+			} else {
+				c.Inconclusive("watchdog on obigrep")
+			}
+			return
+		}
+		if res.Exit != 0 {
+			c.Violate("many-batches:exit", "obigrep fails", det)
+			return
+		}
+		ids := func(b []byte) ([]string, error) {
+			out, err := parseOutput(b, fastq)
+			var l []string
+			for _, o := range out {
+				l = append(l, o.ID)
+			}
+			return l, err
+		}
+		got, err := ids(res.Stdout)
+		if err != nil {
+			c.Violate("many-batches:output-unparsable", "obigrep output cannot be parsed", det)
+			return
+		}
+		c.Key("grep-many/%s/%v/%v/%d", kind, invert, saveDiscarded, cpu)
+		if rep == 0 && c.Idx < 2 {
+			c.Sample(map[string]any{"args": args, "records": len(recs), "approx_batches": len(render(recs, fastq)) / chunk, "expected_kept": len(want)})
+		}
+		explain := func(got, want []string) string {
+			gs := map[string]int{}
+			for _, g := range got {
+				gs[g]++
+			}
+			lost, dup := 0, 0
+			for _, w := range want {
+				if gs[w] == 0 {
+					lost++
+				} else if gs[w] > 1 {
+					dup++
+				}
+			}
+			switch {
+			case lost > 0 && dup > 0:
+				return "lost+duplicated"
+			case lost > 0:
+				return "lost"
+			case dup > 0:
+				return "duplicated"
+			case len(got) != len(want):
+				return "extra"
+			}
+			return "order"
+		}
+		if strings.Join(got, " ") != strings.Join(want, " ") {
+			det["got_count"], det["want_count"] = len(got), len(want)
+			c.Violate("many-batches:stdout:"+explain(got, want), "obigrep over a stream of many batches does not output exactly the selected records in input order", det)
+			return
+		}
+		if saveDiscarded {
+			b, _ := os.ReadFile(disc)
+			gd, err := ids(b)
+			if err != nil || strings.Join(gd, " ") != strings.Join(wantDisc, " ") {
+				det["got_count"], det["want_count"] = len(gd), len(wantDisc)
+				c.Violate("many-batches:discarded:"+explain(gd, wantDisc), "the --save-discarded file of a stream of many batches is not the complement of the selection in input order", det)
+				return
+			}
+		}
 	}
 }
 
